@@ -12,6 +12,7 @@
 import PonyVerif.Gen.StringSlice
 import PonyVerif.Py.Lemmas
 import PonyVerif.Lemmas.SqlStr
+import PonyVerif.Lemmas.SqlStrExt
 namespace PonyVerif.Props.C25
 open PonyVerif.Py PonyVerif.Gen PonyVerif.Model.SqlStr
 
@@ -255,6 +256,82 @@ theorem C25_slice_oracle_exact (env : Env) (e : Sql) (s : List Char) (start stop
   · intro h; injection h
   · intro h; rw [h]
 
+/-! ### NULL-valued bound expressions (`e.name[e.k:]` with `k` NULL; Python: `s[None:j]`)
+
+`STRING_SLICE` wraps the bounds in `COALESCE(start, 0)` / `COALESCE(stop, -1)` inside the LENGTH argument only.  -/
+
+/-- SQLite: a NULL bound reaches `py_string_slice` as None — Python's semantics, for all strings and bounds -/
+theorem C25_slice_sqlite_null (env : Env) (e : Sql) (s : List Char) (start stop : Arg) (i j : Option Int)
+    (he : eval .sqlite env e = .ok (.str s)) (hi : Arg.denotesN .sqlite env start i) (hj : Arg.denotesN .sqlite env stop j) :
+    eval .sqlite env (sqliteSliceT e start stop) = .ok (.str (pySlice s i j)) := by
+  rcases start with _ | a | x <;> rcases stop with _ | b | y <;> simp only [Arg.denotesN] at hi hj
+  all_goals
+    (try subst hi); (try subst hj)
+    (try rcases hi with ⟨a, hx, rfl⟩ | ⟨hx, rfl⟩) <;> (try rcases hj with ⟨b, hy, rfl⟩ | ⟨hy, rfl⟩) <;>
+    simp [sqliteSliceT, Arg.sql, eval, *, pyStringSliceUdf, udfBound, bind, Except.bind]
+
+/-- PostgreSQL / MySQL / Oracle: a NULL start expression makes the whole result NULL, whatever the stop
+    (the position `index_sql` is not coalesced) — Python would slice from the beginning -/
+theorem C25_null_start (d : Dialect) (hd : d ≠ .sqlite) (env : Env) (e : Sql) (s : List Char) (x : Sql) (stop : Arg) (j : Option Int)
+    (he : eval d env e = .ok (.str s)) (hx : eval d env x = .ok .null) (hj : Arg.denotesN d env stop j) :
+    eval d env (sliceFor d e (.expr x) stop) = .ok .null := by
+  have hidx := eval_indexSql_expr_null he hx
+  simp only [sliceFor, if_neg hd]
+  rcases stop with _ | b | y <;> simp only [Arg.denotesN] at hj
+  · simp only [stringSliceT, startNorm, lenSql, eval, he, hidx, substr2Args, bind, Except.bind]
+  · obtain ⟨l, hl, hlv⟩ := eval_lenSql_ec_null_start (idx := indexSql d e (.expr x)) he hx b
+    simp only [stringSliceT, startNorm, hl, eval, he, hidx, hlv, substr3Args, bind, Except.bind]
+  · rcases hj with ⟨b, hy, rfl⟩ | ⟨hy, rfl⟩
+    · obtain ⟨l, hl, hlv⟩ := eval_lenSql_ee_null_start (idx := indexSql d e (.expr x)) he hx hy
+      simp only [stringSliceT, startNorm, hl, eval, he, hidx, hlv, substr3Args, bind, Except.bind]
+    · obtain ⟨l, hl, hlv⟩ := eval_lenSql_ee_null_both (idx := indexSql d e (.expr x)) he hx hy
+      simp only [stringSliceT, startNorm, hl, eval, he, hidx, hlv, substr3Args, bind, Except.bind]
+
+/-- PostgreSQL / MySQL / Oracle: a NULL stop expression is read as the integer -1 (`COALESCE(stop, -1)`): the SQL
+    computes what it computes for `s[i:-1]`, not Python's `s[i:None]` -/
+theorem C25_null_stop (d : Dialect) (env : Env) (e : Sql) (s : List Char) (start : Arg) (y y' : Sql) (i : Option Int)
+    (hN : lengthOf d s = s.length)
+    (he : eval d env e = .ok (.str s)) (hi : Arg.denotes d env start i)
+    (hy : eval d env y = .ok .null) (hy' : eval d env y' = .ok (.int (-1))) :
+    eval d env (stringSliceT d e start (.expr y)) = eval d env (stringSliceT d e start (.expr y')) := by
+  rw [slice_eval d env e s start (.expr y') i (some (-1)) hN he hi ⟨-1, hy', rfl⟩]
+  simp only [Arg.isConstStop, Bool.and_false, sliceSem]
+  rcases start with _ | a | x <;> simp only [Arg.denotes] at hi
+  · subst hi
+    have hidx := eval_indexSql_const he 0
+    obtain ⟨l, hl, hlv⟩ := eval_lenSql_ce_null (idx := indexSql d e (.const 0)) he 0 hy
+    simp [stringSliceT, startNorm, hl, eval, he, hidx, hlv, substr3Args, bind, Except.bind, hN]
+  · subst hi
+    have hidx := eval_indexSql_const he a
+    obtain ⟨l, hl, hlv⟩ := eval_lenSql_ce_null (idx := indexSql d e (.const a)) he a hy
+    simp [stringSliceT, startNorm, hl, eval, he, hidx, hlv, substr3Args, bind, Except.bind, hN]
+  · obtain ⟨a, hx, rfl⟩ := hi
+    have hidx := eval_indexSql_expr he hx
+    obtain ⟨l, hl, hlv⟩ := eval_lenSql_ee_null_stop (idx := indexSql d e (.expr x)) he hx hy
+    simp [stringSliceT, startNorm, hl, eval, he, hidx, hlv, substr3Args, bind, Except.bind, hN]
+
+/-- full statement: "a NULL-valued bound expression behaves like Python's None" -/
+def C25_null_bound_full (d : Dialect) : Prop :=
+  ∀ (env : Env) (e : Sql) (s : List Char) (start stop : Arg) (i j : Option Int),
+    eval d env e = .ok (.str s) → Arg.denotesN d env start i → Arg.denotesN d env stop j →
+    dialectGuard d s start stop i j →
+    eval d env (sliceFor d e start stop) = .ok (strVal d (pySlice s i j))
+
+theorem C25_null_bound_sqlite : C25_null_bound_full .sqlite := by
+  intro env e s start stop i j he hi hj _
+  simp only [sliceFor, if_true, strVal_sqlite]
+  exact C25_slice_sqlite_null env e s start stop i j he hi hj
+
+/-- columns hold the string, parameters hold NULL -/
+def envNull (s : List Char) : Env := ⟨fun _ => some (.str s), fun _ => some .null⟩
+
+/-- suspected, unconfirmable offline: witness `'ab'[:k]` with `k` NULL gives `'a'` (= `'ab'[:-1]`), Python gives `'ab'` -/
+theorem C25_null_bound_full_false (d : Dialect) (hd : d ≠ .sqlite) : ¬ C25_null_bound_full d := by
+  intro h
+  have := h (envNull ['a', 'b']) (.col "s") ['a', 'b'] .omitted (.expr (.param "k")) none none rfl rfl (Or.inr ⟨rfl, rfl⟩)
+    (by cases d <;> simp [dialectGuard, noNegConstLen, startInRange, noMixedClip, singleByte, Arg.isConstStart, Arg.isConstStop] <;> decide)
+  cases d <;> first | exact absurd rfl hd | (revert this; decide)
+
 /-! ### indexes: `s[i]` -/
 
 /-- `['SUBSTR', e, index_sql, ['VALUE', 1]]` -/
@@ -413,6 +490,7 @@ example : myExact "abcdef".toList (some (-4)) (some 9) := by
   rintro ⟨_, _, b, hb, _, hlt⟩; cases hb; revert hlt; decide
 example : ¬ myExact "abcdef".toList (some (-4)) (some 5) := by
   intro h; exact h.2 ⟨by decide, by decide, 5, rfl, by decide, by decide⟩
+example : eval .pg (envNull "abc".toList) (sliceFor .pg (.col "s") (.expr (.param "k")) (.const 2)) = .ok .null := by decide
 example : pyIndex "abc".toList (-1) = some 'c' := by decide
 example : (getitemSlice (.expr (.col "s")) (.param "a" (some 1)) (.param "b" (some (-1))) []).2.lookup "a" = some 1 := by decide
 example : pyStringSliceUdf (.str "abcdef".toList) (.str ['-', '2']) .null = .ok (.str "ef".toList) := by decide
